@@ -749,13 +749,15 @@ class Frame(object):
         if bounding_f_range is None:
             bounding_min, bounding_max = 0, self.fchans
         else:
-            bounding_min = max(self.get_index(bounding_f_range[0]), 0)
-            bounding_max = min(self.get_index(bounding_f_range[1]), self.fchans)
+            # Clip to the frame, so that a range (partly) outside the band never turns
+            # into a negative, i.e. end-relative, slice bound; an empty range selects nothing
+            bounding_min = min(max(self.get_index(bounding_f_range[0]), 0), self.fchans)
+            bounding_max = max(min(self.get_index(bounding_f_range[1]), self.fchans), bounding_min)
             
         restricted_fs = self.fs[bounding_min:bounding_max]
         if integrate_f_profile:
-            f0 = restricted_fs[0]
             restricted_fchans = len(restricted_fs)
+            f0 = restricted_fs[0] if restricted_fchans > 0 else self.fmin
             restricted_fs = np.linspace(f0,
                                         f0 + restricted_fchans * self.df,
                                         restricted_fchans * f_subsamples,
